@@ -197,6 +197,14 @@ def r_drop(ctx, model):
     want = set(SYMS21) - {"c14", "c15", "c16", "c45"}
     ctx.check(got == want, "vanishing components are omitted, all others are present", w, expected=str(sorted(want)), found=str(sorted(got)),
               explanation="a component is omitted although it does not vanish, or a vanishing component is kept", key="drop.rule")
+    # a component that vanishes at some volumes only is not a vanishing component
+    sc = Scenario(system="cubic", columns=["c11", "c12", "c44"], zero=zero_syms)
+    sc.zero_some = {f"X{order.index(s)}" for s in ("c24", "c56")}
+    res = run_fill(model, sc, ctx)
+    got = set(res[1].cols) if res[0] == "ok" else set()
+    ctx.check(got == want, "a component that is zero at one volume but not at all is kept", w, expected=str(sorted(want)), found=str(sorted(got)),
+              explanation="a component is omitted as soon as it vanishes at a single volume: the filled table no longer holds the invariant tensor at every volume",
+              key="drop.partial")
     sc = Scenario(system="cubic", columns=["c11", "c12", "c44"])
     res = run_fill(model, sc, ctx)
     ctx.check(res[0] == "ok" and set(res[1].cols) == set(SYMS21), "every solved symbol is written back", w, expected="21 columns",
